@@ -83,6 +83,9 @@ class DbosWorld(EngineWorld):
         self.crash_event: asyncio.Event | None = None
         self.crashed_at: dict[int, int] = {}
         dbos_emulator.reset_emulator()
+        # how long an async DBOS operation stays suspended for its lookup is a property of the real library this emulator cannot
+        # know: vary it per run so that no verdict rests on one value
+        dbos_emulator.HOPS = tape.choice([0, 1, 1, 2], "dbos.hops")
         dbos_emulator.OBSERVER.append(lambda kind, **f: self.trace.log(kind, **f))
         SEAM.reset()
         SEAM.active = True
